@@ -146,10 +146,30 @@ class UB:
         self.exact_args = {}         # k -> exact polynomial of the actual (when evaluating a sizing function in its caller's terms)
         self.q = False               # quasi-polynomial mode: exact mod / div atoms, guarded joins, block-loop lemmas (compared by residues)
         self.dead = set(); self.unreach = set(); self.block_case = {}; self.site = None
+        self.pins = {}               # sibling mode: metadata field name -> constant (analysis specialised per width)
         self.roles = False           # sibling mode: length calls and loads become atoms named by table / role (sa/sizeterms.py)
         self.H = frozenset()         # loop headers whose continuation test the current use site has already passed
         self.memos = {frozenset(): self.memo}; self.be_test = {}
         self.arg_poly = {}           # k -> Poly (actuals when analysing a callee in context)
+
+    def pin_fields(self, consts):
+        """sibling mode: analyse for fixed values of some metadata fields (every load of a field of that name): e.g. one width at a time"""
+        from . import sizeterms as ST
+        self.pins = dict(consts)
+        iv = Intervals(self.fn, None, self.fi)
+        for i in self.fn.insts():
+            if i.op == "load" and not i["t"].endswith("*"):
+                r = ST.role(self.fn, self.mod, {"k": "inst", "v": i.id, "t": i["t"]})
+                if r[0] == "field" and r[1] in consts: iv.memo[i.id] = (consts[r[1]], consts[r[1]])
+        self.iv = iv; self.dead = iv.dead_edges(); reach = set(); work = [self.fn.entry]
+        while work:
+            b = work.pop()
+            if b.id in reach: continue
+            reach.add(b.id)
+            for sx in b.succs:
+                if (b.id, sx.id) not in self.dead: work.append(sx)
+        self.unreach = {b.id for b in self.fn.blocks} - reach
+        return self
 
     def pin_args(self, consts):
         """analyse the function for fixed values of some integer parameters (e.g. one encoding mode): branches decided by them are pruned"""
@@ -431,6 +451,7 @@ class UB:
         if op == "load" and self.roles:
             from . import sizeterms as ST
             r = ST.role(self.fn, self.mod, {"k": "inst", "v": i.id, "t": i["t"]})
+            if r[0] == "field" and r[1] in self.pins: return Poly.const(self.pins[r[1]])
             if r[0] in ("field", "param"): return Poly.atom(("q", r[1]))
             if r[0] in ("elem", "elem-of", "member"): return Poly.atom(("q",) + tuple(map(str, r)))
         if op == "call" and self.roles:
@@ -1094,6 +1115,11 @@ class UB:
                             if w[0] == "none": continue
                             def callsite():
                                 cands = []; callee_max = None
+                                if self.roles and k == 0:
+                                    from . import sizeterms as ST
+                                    vals = [i.ops[n] for n in range(i["nargs"]) if not i.ops[n]["t"].endswith("*")]
+                                    if len(vals) == 1 and self.mod.fn(c) is not None and ST.length_table(self.mod, c)[0] != "name":
+                                        return [self.ptr_ub(a)[1] + self.ub({"k": "inst", "v": i.id, "t": i["t"]})]       # footprint == returned length (C01-L3)
                                 for alt in (w[1] if w[0] == "alts" else [w]):
                                     if alt[0] == "const": cands.append(Poly.const(alt[1]))
                                     elif alt[0] == "arg":
